@@ -51,9 +51,22 @@ RULE = ("seeded generator of relation instances {additivity on unions, permutati
         "kernel parameters) followed by clean calls, diagram sweep}. Every step must satisfy its relation, and its image must equal "
         "(within the tolerance) the image a NEW imager of the same configuration gives for the same diagram. All images of an "
         "instance are converted only after its last call, so a result overwritten by a later call fails the relation. A size case "
-        "is non-trivial when its diagram / collection really exceeds T and the image is not all-zero; a history when at least two of its steps are non-trivial")
+        "is non-trivial when its diagram / collection really exceeds T and the image is not all-zero; a history when at least two of its steps are non-trivial. "
+        "MAGNITUDES / NEAR-TIES (class mag/...): relation instances {additivity, permutation, styles, skew, non-negativity / total, "
+        "alone vs collection} whose CONSECUTIVE ROWS are tied or nearly tied - births, persistences or whole pairs equal or 5e-6 / 1e-6 / "
+        "1e-7 / 1e-9 apart in relative terms - with the union cut mostly BETWEEN two tied rows (the parts see the rows apart, the union "
+        "sees them one after the other), in three flavours: 'tiny' (every length - window, pixel size, kernel widths, ramp thresholds, "
+        "points - in units of 1e-8 / 1e-9 / 1e-10, so that all coordinates are < 1e-8 apart in absolute terms although pixels apart), "
+        "'offset' (birth axis shifted by +-1e3 .. 9e6 on a pixel grid of 0.006 .. 0.125, short bars, so that 1e-5 relative spans pixels) and "
+        "'neartie' (unit scale); kernels on both code paths, all weights, all layouts, resolutions 2x2 .. 8x7, 3-16 points; and whole "
+        "HISTORIES carried to those magnitudes (_rescale: the same instance in another unit / on a shifted birth axis).  Magnitude "
+        "instances are judged with tolerance 1e-12 * total |weight| (no absolute term: their pixels are ~1e-9 or ~1e+8) and are "
+        "non-trivial when the image exceeds 1e-9 * min(1, mean |weight|).  Inside a history every array persim returned is overwritten "
+        "(history.scribble) once its values are read out, so a result cache handing out its stored image fails a later step")
 TRUSTED_BASE = c04.TRUSTED_BASE + [
     "harness: call histories (harness/history.py) and the re-configuration of the shared imager through public attributes (_imager)",
+    "harness: _rescale (a relation instance / history carried to another unit or birth offset: window, pixel size, kernel widths, "
+    "ramp thresholds and points are moved together)",
 ]
 ASSUMPTIONS = [
     "joblib.Parallel returns its results in input order (hypothesis of single_eq_collection / "
@@ -62,7 +75,8 @@ ASSUMPTIONS = [
     "in [0,1] (kernel_assumption) are hypotheses of pixels_nonneg / pixel_total_le_weight; proved for product "
     "kernels and the uniform kernel",
     "the mesh is non-decreasing (C12's invariant) in pixels_nonneg / pixel_total_le_weight",
-    "binary64 rounding of the implementation is bounded by the stated tolerances, not proved",
+    "binary64 rounding of the implementation is bounded by the stated tolerances, not proved (magnitude instances: 1e-12 * total "
+    "|weight|, i.e. >= 2^13 ulps of the largest possible pixel for <= 16 points)",
     "the configuration of an imager is what its public attributes (birth_range, pers_range, pixel_size, weight, weight_params, "
     "kernel, kernel_params) say at the time of the call: runs on different imager objects of equal configuration are runs of the "
     "same configuration (history steps compare a re-configured imager with a new one)",
@@ -438,12 +452,142 @@ def _styles_cases(rng, n):
     return out
 
 
+# ---- magnitudes and near-ties between consecutive rows --------------------------------------------
+MAG_UNITS = [1e-8, 1e-9, 1e-10]                    # every length of the instance in such a unit
+MAG_FINE = [0.0625, 0.05, 0.125, 0.03]            # pixel grids of the offset flavour (times the base pixel size)
+MAG_OFFSETS = [1e3, 1e4, 1e5, 1e6]                # the birth axis shifted that far, bars stay short
+MAG_RELTIES = [5e-6, 1e-6, 1e-7, 1e-9]            # relative distance between near-tied coordinates
+MAG_FLAVOURS = ["tiny", "offset", "neartie"]
+MAG_RELS = ["additivity", "permutation", "styles", "additivity", "permutation", "skew", "nonneg_total", "collection"]
+MAG_KCLS = ["iso_scalar", "iso_matrix", "iso_scalar", "iso_matrix", "axis", "uniform", "corr_mid"]
+PT_KEYS = ("A", "B", "C", "Z")
+
+
+def _rescale(c, u=1.0, off=0.0):
+    """The same instance in another unit (every length times u) and / or on a birth axis shifted by off: window, pixel
+    size, kernel widths, ramp thresholds and points all move together.  Histories: every step."""
+    if history.is_hist(c):
+        d = dict(c)
+        d["seq"] = [_rescale(s, u, off) for s in c["seq"]]
+        d["cls"] = "%s/mag(u=%g,off=%g)" % (c["cls"], u, off)
+        return d
+    d = dict(c)
+    sk = c["skew"]
+
+    def pt(q):
+        b = q[0] * u + off
+        return [b, (q[1] * u + off) if sk else q[1] * u]
+    for key in PT_KEYS:
+        if c.get(key) is not None:
+            d[key] = [pt(q) for q in c[key]]
+    if c.get("dgms") is not None:
+        d["dgms"] = [[pt(q) for q in g] for g in c["dgms"]]
+    d["birth_range"] = [x * u + off for x in c["birth_range"]]
+    d["pers_range"] = [x * u for x in c["pers_range"]]
+    d["pixel_size"] = c["pixel_size"] * u
+    k = dict(c["kernel"])
+    for key in ("s", "sxx", "sxy", "syy"):
+        if key in k:
+            k[key] = k[key] * u * u                      # variances
+    for key in ("width", "height"):
+        if key in k:
+            k[key] = k[key] * u
+    d["kernel"] = k
+    w = dict(c["weight"])
+    if w["type"] == "linear_ramp":
+        w["start"], w["end"] = w["start"] * u, w["end"] * u
+    d["weight"] = w
+    m = dict(c.get("mag") or {"u": 1.0, "off": 0.0})
+    m["u"], m["off"] = m["u"] * u, m["off"] + off
+    d["mag"] = m
+    return d
+
+
+def _mag_case(rng, rel, flavour):
+    """A relation instance whose consecutive rows are near-tied (births, persistences or whole pairs within 5e-6 .. 1e-9
+    relative, or exactly tied), in nanometre-like units / far along the birth axis on a fine grid / at unit scale."""
+    kcls = rng.choice(MAG_KCLS)
+    wcls = rng.choice(["pers_nat", "pers_real", "ramp", "user"])
+    res = rng.choice([(2, 2), (3, 2), (4, 3), (5, 4), (6, 5), (8, 7)])
+    base = c04._case(rng, kcls, wcls, "mixed", res, 1, rng.random() < 0.5, True)
+    c = {k: base[k] for k in CFG_KEYS}
+    skew = True if rel == "skew" else rng.random() < 0.6
+    c.update(skew=skew, rel=rel, A=[], B=[], container=rng.choice(LAYOUTS))
+    if flavour == "tiny":
+        c = _rescale(c, u=rng.choice(MAG_UNITS) * rng.choice([1.0, 1.0, rng.uniform(0.5, 8.0)]))
+    elif flavour == "offset":
+        c = _rescale(_rescale(c, u=rng.choice(MAG_FINE)), off=rng.choice(MAG_OFFSETS) * rng.choice([1.0, -1.0, rng.uniform(1.0, 9.0)]))
+    else:
+        c["mag"] = {"u": 1.0, "off": 0.0}
+    c["mag"]["flavour"] = flavour
+    c["cls"] = "mag/%s/%s/%s/%s" % (flavour, rel, kcls.split("_")[0], wcls)
+    (b0, b1), (p0, p1), ps = c["birth_range"], c["pers_range"], c["pixel_size"]
+
+    def near(x):
+        r = rng.random()
+        if r < 0.2:
+            return x                                                     # an exact tie
+        if flavour == "tiny" and r < 0.5:
+            return x + rng.choice([-1, 1]) * rng.uniform(0.05, 2.0) * ps  # far apart in pixels, 1e-8 apart in absolute terms
+        return x + rng.choice([-1, 1]) * rng.choice(MAG_RELTIES) * max(abs(x), ps)
+
+    rows, starts = [], []
+    for _ in range(rng.randint(2, 5)):
+        b = rng.uniform(b0 - 0.3 * ps, b1 + 0.3 * ps)
+        p = max(rng.uniform(p0, p1 + 0.3 * ps), 0.05 * ps)
+        starts.append(len(rows))
+        rows.append((b, p))
+        for _ in range(rng.choice([0, 1, 1, 2])):
+            how = rng.random()
+            if how < 0.5:
+                q = (near(b), max(rng.uniform(p0, p1 + 0.3 * ps), 0.05 * ps))     # births tied, persistences apart
+            elif how < 0.7:
+                q = (rng.uniform(b0, b1), max(near(p), 0.05 * ps))              # persistences tied
+            else:
+                q = (near(b), max(near(p), 0.05 * ps))                           # (nearly) the same pair again
+            rows.append(q)
+    if len(rows) == len(starts):
+        rows.append((near(rows[-1][0]), rows[-1][1] * rng.choice([0.5, 1.0, 1.5])))
+    pts = [[b, (b + p) if skew else p] for b, p in rows]
+    inside = [i for i in range(1, len(pts)) if i not in starts]
+    cut = rng.choice(inside) if rng.random() < 0.75 else rng.randint(1, len(pts) - 1)    # mostly between two tied rows
+    c["A"], c["B"] = pts[:cut], pts[cut:]
+    if rel == "permutation":
+        perm = list(range(len(pts)))
+        while perm == sorted(perm):
+            rng.shuffle(perm)
+        c["perm"] = perm
+    if rel in ("collection", "styles"):
+        c["C"] = [list(rng.choice(pts)) for _ in range(rng.randint(1, 3))]
+    if rel == "styles":
+        c["njobs"] = [1, 2] if rng.random() < 0.25 else [1]
+    return c
+
+
+def _mag_cases(rng, n):
+    return [_mag_case(rng, MAG_RELS[i % len(MAG_RELS)], MAG_FLAVOURS[(i % len(MAG_RELS) + i // len(MAG_RELS)) % len(MAG_FLAVOURS)]) for i in range(n)]
+
+
+def _mag_histories(rng, n):
+    """Ordinary histories (one imager, shared diagram objects) carried to another magnitude as a whole."""
+    out = []
+    for i in range(n):
+        h = _history(rng, rng.choice(HIST_KINDS))
+        if i % 2 == 0:
+            out.append(_rescale(h, u=rng.choice(MAG_UNITS)))
+        else:
+            out.append(_rescale(_rescale(h, u=rng.choice([0.125, 0.05, 0.25])), off=rng.choice(MAG_OFFSETS)))
+    return out
+
+
 def generate(rng, tier):
     cases = _relation_cases(rng, tier)
     quick = tier == "quick"
     cases += _styles_cases(rng, 10 if quick else 200)
     cases += _histories(rng, 12 if quick else 240)
     cases += _big_cases(rng, tier)
+    cases += _mag_cases(rng, 48 if quick else 1200)
+    cases += _mag_histories(rng, 4 if quick else 80)
     return cases
 
 
@@ -705,7 +849,7 @@ def impl_call(c, memo=None):
             fresh = c04.make_imager(c)
             o["FRESH"] = lst(fresh.transform(conv(AB if MAIN[rel] == "AB" else A), skew=sk))
             o["FRESH_res"] = [int(x) for x in fresh.resolution]
-        return _finish(o)
+        return _finish(o, scribble=hist)
     return core.guarded(call)
 
 
@@ -736,7 +880,9 @@ def _fault(c, memo, arr, conv):
         return {"raised": type(e).__name__}
 
 
-def _finish(o):
+def _finish(o, scribble=False):
+    """Read the images out; inside a history everything persim returned is then overwritten (history.scribble): a caller may
+    edit what it got back, so a result cache handing out its stored array shows at a later step."""
     import numpy as np
 
     def fin(x):
@@ -748,7 +894,20 @@ def _finish(o):
         if isinstance(x, list):
             return [fin(v) for v in x]
         return x
-    return fin(o)
+
+    def scr(x):
+        if isinstance(x, _Img):
+            history.scribble(x.a)
+        elif isinstance(x, dict):
+            for v in x.values():
+                scr(v)
+        elif isinstance(x, list):
+            for v in x:
+                scr(v)
+    res = fin(o)
+    if scribble:
+        scr(o)
+    return res
 
 
 def impl_run(cases):
@@ -792,6 +951,20 @@ def _total_weight(c, pts):
     return t
 
 
+def _tol(c):
+    """Sums are re-ordered between the calls compared: n * 2^-53 * total |weight| bounds the difference (kernel masses lie
+    in [0, 1]).  Magnitude instances are judged relative to their total weight alone (their pixels are ~1e-9 or ~1e+8)."""
+    W = _total_weight(c, c["A"] + c["B"] + (c.get("C") or []))
+    return TOL * W if c.get("mag") else TOL * (1.0 + W)
+
+
+def _floor(c):
+    """Below this an image counts as all-zero."""
+    if not c.get("mag"):
+        return 1e-9
+    return 1e-9 * min(1.0, _total_weight(c, c["A"] + c["B"]) / max(1, len(c["A"]) + len(c["B"])))
+
+
 def _close(x, y, tol):
     if x is None or y is None:
         return "missing image"
@@ -817,7 +990,7 @@ def predicate(c, o):
         # a step of a history: the relation holds among the calls on the re-used imager; the image must also be
         # the one a new imager of the same configuration produces
         res = o["res"]
-        tol = TOL * (1.0 + _total_weight(c, c["A"] + c["B"] + c.get("C", [])))
+        tol = _tol(c)
         main = {"additivity": "AB", "permutation": "AB", "zero_weight": "A", "collection": "A", "skew": "S",
                 "nonneg_total": "AB", "styles": "alone"}[c["rel"]]
         e = ("resolutions %s vs %s" % (res, o["FRESH_res"]) if res != o["FRESH_res"] else None) or _close(o[main], o["FRESH"], tol)
@@ -830,7 +1003,7 @@ def predicate(c, o):
 def _relation(c, o):
     rel = c["rel"]
     res = o["res"]
-    tol = TOL * (1.0 + _total_weight(c, c["A"] + c["B"] + c.get("C", [])))
+    tol = _tol(c)
 
     def shape_ok(x):
         return x is not None and x["shape"] == res
@@ -998,7 +1171,7 @@ def nontrivial(c, o):
     key = {"additivity": "AB", "permutation": "AB", "zero_weight": "A", "collection": "A", "skew": "S",
            "nonneg_total": "AB", "styles": "alone"}.get(c["rel"])
     x = o["J"]["None/True"][0] if c["rel"] == "njobs" else (o["FT_BD"][0] if c["rel"] == "fit_transform" else o.get(key))
-    if x is None or max(abs(v) for v in x["v"]) <= 1e-9:
+    if x is None or not max(abs(v) for v in x["v"]) > _floor(c):
         return False
     if c["rel"] == "permutation":
         return c["perm"] != sorted(c["perm"])
